@@ -1181,7 +1181,8 @@ class PDFCIDFont(PDFFont):
             if ttf:
                 try:
                     self.unicode_map = ttf.create_unicode_map()
-                except TrueTypeFont.CMapNotFound:
+                except (TrueTypeFont.CMapNotFound, struct.error):
+                    # no cmap table, or one that ends before its tables do
                     pass
         else:
             try:
